@@ -350,6 +350,12 @@ fn src_grammar(src: &str) -> (String, String, Option<String>) {
             let (g, sc) = random_rich_grammar(&mut rng, &format!("c15rich{k}"));
             ("rich".into(), serde_json::to_string(&g).unwrap(), sc)
         }
+        "lalr" => {
+            let seed: u64 = f[1].parse().unwrap();
+            let k: usize = f[2].parse().unwrap();
+            let mut rng = Rng::new(seed ^ 0x1A18 ^ (k as u64).wrapping_mul(0x9E37));
+            ("cfg".into(), serde_json::to_string(&lalr_split_grammar(&mut rng, &format!("c15lalr{k}"))).unwrap(), None)
+        }
         "json" => ("cfg".into(), String::from_utf8(unhex(f[1])).unwrap(), None),
         _ => panic!("bad src {src}"),
     }
@@ -433,7 +439,7 @@ fn main() {
     }
 
     let mut rng = Rng::new(seed);
-    let (n_cfg, n_op, budget, nrandom, zoo_docs, n_rich) = if thorough { (1000, 100, 15000, 40, 60, 150) } else { (40, 8, 1500, 8, 12, 14) };
+    let (n_cfg, n_op, budget, nrandom, zoo_docs, n_rich, n_lalr) = if thorough { (1000, 100, 15000, 40, 60, 150, 100) } else { (40, 8, 1500, 8, 12, 14, 12) };
 
     if let Some(corpus) = zoo_corpus("c15") {
         for (i, line) in corpus.lines().enumerate() {
@@ -490,6 +496,24 @@ fn main() {
                 rejected += 1;
                 eprintln!("{name}: {}", e.lines().next().unwrap_or(""));
             }
+        }
+    }
+    // LR(1)-but-not-LALR(1) grammars with 2..4-way splits of one item-set core
+    for k in 0..n_lalr {
+        let mut grng = Rng::new(seed ^ 0x1A18 ^ (k as u64).wrapping_mul(0x9E37));
+        let name = format!("c15lalr{k}");
+        let json = serde_json::to_string(&lalr_split_grammar(&mut grng, &name)).unwrap();
+        match build_pair(&mut cu, &work, &name, &json, None, nproc) {
+            Ok(p) => {
+                if !p.det_ok {
+                    nondet += 1;
+                }
+                em.header(&name, "lalr", &format!("lalr:{seed}:{k}"), &p);
+                let lv = lang_view(&p);
+                explore_tokens(&mut em, &p, &name, &mut rng, budget.max(3000), nrandom, &lv);
+                npairs += 1;
+            }
+            Err(_) => rejected += 1,
         }
     }
     for (name, g) in glr_grammars() {
